@@ -8,6 +8,10 @@ use discret::verif_hooks::database::room::Room;
 use discret::verif_hooks::database::Error as DbError;
 use discret::verif_hooks::event_service::{Event, EventService, EventServiceMessage};
 use discret::verif_hooks::security::{base64_encode, Uid};
+use discret::verif_hooks::database::edge::{Edge, EdgeDeletionEntry};
+use discret::verif_hooks::database::node::{Node, NodeDeletionEntry, NodeIdentifier};
+use discret::verif_hooks::database::room_node::RoomNode;
+use std::collections::{HashMap, HashSet};
 use std::path::PathBuf;
 use std::sync::{Arc, Mutex};
 use std::time::Duration;
@@ -300,4 +304,130 @@ pub fn room_digest(r: &Room) -> String {
         .map(|x| x.rights.values().map(|l| l.len()).sum::<usize>())
         .sum();
     format!("a{}g{}u{}v{}r{}", a, g, u, ua, rg)
+}
+
+/// `dst` ingests room `room` of `src`: the call sequence of `synchronise_room` / `synchronise_day`
+/// (peer_inbound_service.rs) for every (entity, day) of the remote log, over direct calls.
+/// Returns (status, number of recompute requests made, room definition imported).
+pub async fn pull_room(src: &GraphDatabaseService, dst: &GraphDatabaseService, room: Uid) -> (String, usize, bool) {
+    let remote_def = match src.get_room_definition(room).await {
+        Ok(Some(d)) => d,
+        Ok(None) => return ("err:room-unknown".into(), 0, false),
+        Err(e) => return (format!("err:{}", class(&e)), 0, false),
+    };
+    let local_def = dst.get_room_definition(room).await.ok().flatten();
+    let load = match &local_def {
+        Some(l) => l.room_def_date < remote_def.room_def_date,
+        None => true,
+    };
+    if load {
+        match src.get_room_node(room).await {
+            Ok(Some(n)) => {
+                let ser = bincode::serialize(&n).unwrap();
+                let n = bincode::deserialize::<RoomNode>(&ser).unwrap();
+                if let Err(e) = dst.add_room_node(n).await {
+                    return (format!("err:room-{}", class(&e)), 0, false);
+                }
+            }
+            _ => return ("err:room-node".into(), 0, false),
+        }
+    }
+    let mut log = vec![];
+    let mut rx = src.get_room_log(room).await;
+    while let Some(l) = rx.recv().await {
+        match l {
+            Ok(mut l) => log.append(&mut l),
+            Err(e) => return (format!("err:{}", class(&e)), 0, false),
+        }
+    }
+    let mut modified = false;
+    for entry in log {
+        let (entity, date) = (entry.entity.clone(), entry.date);
+        let mut rx = src.get_room_edge_deletion_log(room, entity.clone(), date).await;
+        while let Some(v) = rx.recv().await {
+            let v: Vec<EdgeDeletionEntry> = match v {
+                Ok(v) => v,
+                Err(e) => return (format!("err:{}", class(&e)), modified as usize, false),
+            };
+            if !v.is_empty() {
+                modified = true;
+                let v: Vec<EdgeDeletionEntry> = bincode::deserialize(&bincode::serialize(&v).unwrap()).unwrap();
+                if let Err(e) = dst.delete_edges(v).await {
+                    return (format!("err:{}", class(&e)), 0, false);
+                }
+            }
+        }
+        let mut rx = src.get_room_node_deletion_log(room, entity.clone(), date).await;
+        while let Some(v) = rx.recv().await {
+            let v: Vec<NodeDeletionEntry> = match v {
+                Ok(v) => v,
+                Err(e) => return (format!("err:{}", class(&e)), modified as usize, false),
+            };
+            if !v.is_empty() {
+                modified = true;
+                let v: Vec<NodeDeletionEntry> = bincode::deserialize(&bincode::serialize(&v).unwrap()).unwrap();
+                if let Err(e) = dst.delete_nodes(v).await {
+                    return (format!("err:{}", class(&e)), 0, false);
+                }
+            }
+        }
+        let mut remote_nodes: HashSet<NodeIdentifier> = HashSet::new();
+        let mut rx = src.get_room_daily_nodes(room, entity.clone(), date).await;
+        while let Some(v) = rx.recv().await {
+            match v {
+                Ok(v) => {
+                    for n in v {
+                        remote_nodes.insert(n);
+                    }
+                }
+                Err(e) => return (format!("err:{}", class(&e)), modified as usize, false),
+            }
+        }
+        let filtered = match dst.filter_existing_node(remote_nodes).await {
+            Ok(f) => f,
+            Err(e) => return (format!("err:{}", class(&e)), modified as usize, false),
+        };
+        if filtered.is_empty() {
+            continue;
+        }
+        modified = true;
+        let node_list: Vec<Uid> = filtered.iter().map(|n| n.id).collect();
+        let edge_list: Vec<(Uid, i64)> = filtered.iter().map(|n| (n.id, n.old_mdate)).collect();
+        let mut node_map: HashMap<Uid, _> = filtered.into_iter().map(|n| (n.id, n)).collect();
+        let mut rx = src.get_nodes(room, node_list).await;
+        while let Some(v) = rx.recv().await {
+            let nodes: Vec<Node> = match v {
+                Ok(v) => bincode::deserialize(&bincode::serialize(&v).unwrap()).unwrap(),
+                Err(e) => return (format!("err:{}", class(&e)), 1, false),
+            };
+            let mut to_insert = vec![];
+            for mut node in nodes {
+                if node.verify().is_err() {
+                    continue;
+                }
+                if let Some(mut nti) = node_map.remove(&node.id) {
+                    node._local_id = nti.old_local_id;
+                    nti.node = Some(node);
+                    to_insert.push(nti);
+                }
+            }
+            if let Err(e) = dst.add_nodes(room, to_insert).await {
+                return (format!("err:{}", class(&e)), 1, false);
+            }
+        }
+        let mut rx = src.get_edges(room, edge_list).await;
+        while let Some(v) = rx.recv().await {
+            let edges: Vec<Edge> = match v {
+                Ok(v) => bincode::deserialize(&bincode::serialize(&v).unwrap()).unwrap(),
+                Err(e) => return (format!("err:{}", class(&e)), 1, false),
+            };
+            if let Err(e) = dst.add_edges(room, edges).await {
+                return (format!("err:{}", class(&e)), 1, false);
+            }
+        }
+    }
+    if modified {
+        dst.compute_daily_log().await;
+    }
+    ("ok".into(), modified as usize, load)
 }
